@@ -28,6 +28,16 @@ TRUSTED = ['tools/props/c06.py RefEd: the Python reference line editor (property
 MARKS = 'abc'
 FILTERS = ['tr a-z A-Z', 'sort', 'cat', 'sed d']
 WORDS = ['ab', 'cd', 'ab cd', 'xy', 'b', 'aab', 'k9', 'ab7', 'zz top', 'm', 'cd xy', 'q1']
+BUILTIN_FILTERS = set(FILTERS)      # re-implemented in Python (RefEd) and OCaml (drv_ex.ml); every other command is RUN by the reference
+# commands for `r !cmd` (they must not read their standard input: the child of `r !cmd` inherits the editor's, i.e. the script) and
+# filters for `beg,end!cmd` / `rx reg cmd`.  No backslash, % or # (ex_pathexpand rewrites them), no | in the `r !` forms.
+# Output shapes aimed at: empty, one unterminated line, several lines with the last one unterminated, terminated.
+RCMDS = ['echo -n qq7', 'echo ab; echo -n cd9', 'seq 3', 'true', 'cat h', 'cat n3', 'head -c 4 n3', 'echo zz', 'seq 2; echo -n k9', 'cat e',
+         'echo -n']
+PFILTERS = ['awk 1 ORS=+', "tr -d '[:cntrl:]'", 'echo -n x1', 'true', 'echo ab; echo -n cd', 'tac', 'rev', 'sort -r', 'tail -n 1',
+            'sed 1d', 'sed -n 2p', 'cat; echo -n t7', 'head -n 1', 'cat -', 'wc -l', 'tr a-z A-Z | tac', 'head -c 0']
+BIGFILTERS = ['cat', 'tr a-z A-Z', 'tac', 'sort -r', 'rev', 'cksum', 'wc -c', 'tail -n 2', 'sed -n 1p', 'cat -', 'tr a-y b-z', 'sort',
+              'sed -n 2,3p', 'tail -c 66000', 'head -c 65600', 'sed s/a/A/']
 
 
 # ---------------------------------------------------------------------------------------------
@@ -76,6 +86,8 @@ def r_cmd(c):
         s += ' ' + c['path']
     elif k == '!':
         s += c['filter']
+    elif k == 'rx':
+        s += ' ' + c['reg'] + ' ' + c['filter']
     elif k == 'rs':
         s += (' ' + c['reg']) if c.get('reg') else ''
     elif k == 'ec':
@@ -179,8 +191,50 @@ class Reject(Exception):
 UNK = object()      # a mark whose line was inside a replaced range: the property says nothing
 
 
+_shell_cache = {}
+_shell_lock = __import__('threading').Lock()
+
+
+def file_bytes(lines, nonl=False):
+    """the bytes of a file given as a list of lines; nonl: the last line is NOT terminated by a newline"""
+    b = ''.join(l + '\n' for l in lines).encode('latin-1')
+    return b[:-1] if (nonl and lines) else b
+
+
+def lines_of(data):
+    """the lines of a text (command output, file): split at the newlines; a last line without newline is a line too"""
+    parts = data.decode('latin-1').split('\n')
+    return parts[:-1] if parts[-1] == '' else parts
+
+
+def run_shell(cmd, inp, rawfiles):
+    """what `sh -c cmd` prints for the input bytes inp (None: no input; the command must not read any) in a directory that holds
+    rawfiles -- the reference for `!cmd`, `r !cmd`, `rx`: the same command run on the same bytes (cached)"""
+    key = (cmd, inp, tuple(sorted(rawfiles.items())))
+    with _shell_lock:
+        if key in _shell_cache:
+            return _shell_cache[key]
+    import subprocess, tempfile, shutil
+    d = tempfile.mkdtemp(prefix='c06sh.', dir=vlib.tmpdir())
+    try:
+        for nme, data in rawfiles.items():
+            with open(os.path.join(d, nme), 'wb') as fh:
+                fh.write(data)
+        p = subprocess.run(['/bin/sh', '-c', cmd], input=inp if inp is not None else None, stdin=subprocess.DEVNULL if inp is None else None,
+                           stdout=subprocess.PIPE, stderr=subprocess.DEVNULL, cwd=d, env={'PATH': '/usr/bin:/bin', 'HOME': d}, timeout=60)
+        out = p.stdout
+    finally:
+        shutil.rmtree(d, ignore_errors=True)
+    with _shell_lock:
+        _shell_cache[key] = out
+    return out
+
+
 class RefEd:
-    def __init__(self, file_lines, files):
+    def __init__(self, file_lines, files, nonl=()):
+        self.rawfiles = dict((nme, file_bytes(ls, nme in nonl)) for nme, ls in files.items())
+        self.pipelog = None         # when a list: every (command, input bytes or None, output bytes) the reference ran
+        self.unterm = set()         # lettered registers whose text does not end in a newline (set by rx)
         self.lines = [[i, t] for i, t in enumerate(file_lines)]
         self.nid = len(file_lines)
         self.cur = 0
@@ -300,13 +354,24 @@ class RefEd:
             self._set_reg('1', texts, cmds)
         if r.isupper():
             low = r.lower()
+            if low in self.unterm:
+                raise KeyError('append to a register whose text does not end in a newline (set by rx): the property is silent')
             had = self.regs.get(low)
             oldc = self.cmdregs.get(low) if had else []        # the commands the old text stands for (None: plain text)
             self._set_reg(low, (had or []) + texts, (oldc + list(cmds)) if (oldc is not None and cmds is not None) else None)
         else:
             self._set_reg(r, texts, cmds)
 
+    def shell(self, cmd, src):
+        """the lines the external command produces for the lines src (None: no input)"""
+        inp = None if src is None else file_bytes(src)
+        out = run_shell(cmd, inp, self.rawfiles)
+        if self.pipelog is not None:
+            self.pipelog.append((cmd, inp, out))
+        return out
+
     def _set_reg(self, r, texts, cmds):
+        self.unterm.discard(r)
         self.regs[r] = list(texts)
         if cmds is None:
             self.cmdregs.pop(r, None)
@@ -400,6 +465,19 @@ class RefEd:
                 raise Reject()
             if k == '!' and not self.wa and self.dirty:
                 raise Reject()
+            if k == 'rx':
+                # register filter: the register's text is the command's input, its output the register's new text (a line-wise
+                # store: pushed on the numbered registers like every other); no line, mark or the current line changes
+                r = c['reg']
+                if self.regs.get(r) is None:
+                    raise KeyError('rx on an unset register (the command would read the script)')
+                if r in self.unterm:
+                    raise KeyError('rx on a register whose text does not end in a newline')
+                out = self.shell(c['filter'], self.regs[r])
+                self.put_reg(r, lines_of(out))
+                if out and not out.endswith(b'\n'):
+                    self.unterm.add(r)
+                return True
             b, e, zero = self.resolve(c.get('addr', []))
             adds = k in ('a', 'i', 'c', 'pu', 'r')
             if zero and not adds:
@@ -427,7 +505,10 @@ class RefEd:
                 self.splice(e, e, texts)
                 self.cur = self.clamp(e + len(texts) - 1)
             elif k == 'r':
-                data = self.files.get(c['path'])
+                if c['path'].startswith('!'):
+                    data = lines_of(self.shell(c['path'][1:], None))     # r !cmd: the lines the command prints
+                else:
+                    data = self.files.get(c['path'])
                 if data is None:
                     raise Reject()
                 pos = e if n else 0
@@ -444,8 +525,12 @@ class RefEd:
             elif k == '!':
                 src = [l[1] for l in self.lines[b:e]]
                 f = c['filter']
-                res = {'cat': src, 'sed d': [], 'sort': sorted(src, key=lambda s: s.encode()),
-                       'tr a-z A-Z': [s.upper() for s in src]}[f]
+                if f in BUILTIN_FILTERS:
+                    res = {'cat': src, 'sed d': [], 'sort': sorted(src, key=lambda s: s.encode()),
+                           'tr a-z A-Z': [s.upper() for s in src]}[f]
+                else:
+                    # the addressed lines, each with its newline, are the command's input; the lines of its output replace them
+                    res = lines_of(self.shell(f, src))
                 self.splice(b, e, res)
             elif k == '@':
                 self.cur = b
@@ -931,6 +1016,217 @@ def gen_str_case(rng, quick):
     return case
 
 
+# -- the pipe stream: read / filter / register filter as functions of the external command's OUTPUT BYTES -------------------
+# `addr r file`, `addr r !cmd`, `beg,end!cmd`, `rx reg cmd` + `pu reg`, where the text that arrives (file content, command output) is
+# empty / one unterminated line / several lines with the last one unterminated / terminated, at address 0, the middle, `$`, with
+# marks below and above the insertion.  The reference RUNS the same command on the same bytes (run_shell) and splits what it
+# prints into lines (a last line without newline is a line).  All three observers see buffer, `=`, marks after every command.
+
+def a_last():
+    return [({'base': ('$',), 'offs': []}, None)]
+
+
+def a_range(lo, hi):
+    return [({'base': ('n', lo), 'offs': []}, ','), ({'base': ('n', hi), 'offs': []}, None)]
+
+
+def range_bytes(ed, a):
+    ed2 = copy.copy(ed)
+    try:
+        b, e, z = ed2.resolve(a)
+    except (Reject, KeyError):
+        return None
+    return len(file_bytes([l[1] for l in ed.lines[b:e]]))
+
+
+def gen_pfilter(rng, nbytes):
+    """a filter command; nbytes = size of its input where known: `head -c N` is aimed at 0, mid-line, size-1 (only the final
+    newline is cut: the last line arrives unterminated), size, size+3"""
+    t = rng.below(20)
+    if t < 6:
+        nb = nbytes if nbytes is not None else 6
+        return 'head -c %d' % max(0, rng.choice([0, 1, nb - 1, nb - 1, nb, nb + 3, nb // 2, max(0, nb - 2), rng.range(0, nb + 1)]))
+    if t < 8:
+        return rng.choice(FILTERS)
+    return rng.choice(PFILTERS)
+
+
+def pipe_addr1(rng, ed):
+    n = len(ed.lines)
+    return rng.choice([n_addr(0), n_addr(0), [], a_last(), a_last(), n_addr(rng.range(1, max(1, n))), n_addr(max(1, n // 2)), n_addr(n),
+                       n_addr(n + 1), n_addr(1), gen_addr(rng, ed)])
+
+
+def pipe_addr2(rng, ed):
+    n = len(ed.lines)
+    if n == 0 or rng.chance(1, 8):
+        a = gen_addr(rng, ed)
+        return a if a != [] else '%'
+    lo = rng.range(1, n)
+    hi = rng.choice([lo, lo, n, rng.range(lo, n), min(n, lo + 1), min(n, lo + 2)])
+    return rng.choice([a_range(lo, hi), a_range(lo, hi), n_addr(lo), '%', a_range(1, hi), [({'base': ('n', lo), 'offs': []}, ','), ({'base': ('$',), 'offs': []}, None)]])
+
+
+def gen_pipe_steps(rng, ed):
+    """-> list of steps"""
+    t = rng.below(20)
+    n = len(ed.lines)
+    if t < 6:
+        return [[{'cmd': 'r', 'addr': pipe_addr1(rng, ed), 'path': rng.choice(['g', 'h', 'n3', 'e', 'h', 'n3', 'g', 't2', 'nofile'])}]]
+    if t < 9:
+        return [[{'cmd': 'r', 'addr': pipe_addr1(rng, ed), 'path': '!' + rng.choice(RCMDS)}]]
+    if t < 15:
+        a = pipe_addr2(rng, ed)
+        return [[{'cmd': '!', 'addr': a, 'filter': gen_pfilter(rng, range_bytes(ed, a))}]]
+    if t < 18:
+        reg = rng.choice('ab')
+        out = []
+        if ed.regs.get(reg) is None or reg in ed.unterm or rng.chance(1, 2):
+            if n and rng.chance(3, 4):
+                lo = rng.range(1, n)
+                out.append([{'cmd': 'y', 'addr': a_range(lo, rng.range(lo, n)), 'reg': reg}])
+            else:
+                out.append([{'cmd': 'rs', 'reg': reg, 'text': gen_text(rng, 1)}])
+            src = None
+        else:
+            src = len(file_bytes(ed.regs[reg]))
+        f = gen_pfilter(rng, src)
+        while '|' in f:                 # (a `|` ends the rx command: only `!` takes the rest of the line)
+            f = gen_pfilter(rng, src)
+        out.append([{'cmd': 'rx', 'reg': reg, 'filter': f}])
+        out.append([{'cmd': 'pu', 'addr': rng.choice([[], n_addr(0), a_last(), n_addr(rng.range(0, n + 1))]), 'reg': rng.choice([reg, reg, reg, '1', '2'])}])
+        return out
+    st = gen_step(rng, ed)
+    for x in st:
+        if x.get('reg') in ('A', 'B'):
+            x['reg'] = x['reg'].lower()      # no appends (a register set by rx may lack its final newline)
+    return [st]
+
+
+def pipe_files(rng):
+    """g: 0..2 lines, h: one line, n3: three lines, t2: two lines (terminated), e: empty; nonl: which lack the final newline"""
+    files = {'g': [rng.choice(WORDS) + 'g' + str(i) for i in range(rng.choice([1, 2, 2, 0]))], 'h': ['hh' + str(rng.below(10))],
+             'n3': ['n3a', 'n3b ' + rng.choice(WORDS), 'n3c'], 't2': ['t2a', 't2b'], 'e': []}
+    nonl = ['h', 'n3'] + (['g'] if rng.chance(1, 2) else [])
+    return files, nonl
+
+
+def gen_pipe_case(rng, quick):
+    n = rng.choice([0, 1, 2, 3, 3, 4, 5, 6])
+    flines = [rng.choice(WORDS) + str(i) for i in range(n)]
+    files, nonl = pipe_files(rng)
+    case = {'file': flines, 'files': files, 'nonl': nonl, 'wa': True, 'steps': [], 'stream': 'pipe'}
+    ed = RefEd(flines, files, nonl)
+    ed.lenient = True
+
+    def add(step):
+        case['steps'].append(step)
+        try:
+            run_ref_step(ed, step, len(case['steps']) - 1)
+        except KeyError:
+            pass
+    if n and rng.chance(3, 4):
+        for m in MARKS[:rng.range(1, 3)]:
+            add([{'cmd': 'k', 'mark': m, 'addr': n_addr(rng.range(1, n))}])
+    for _ in range(rng.range(2, 5 if quick else 8)):
+        for st in gen_pipe_steps(rng, ed):
+            add(st)
+    return case
+
+
+def pipe_sweep():
+    """systematic part: every way a text can end (terminated, last line unterminated, a single unterminated line, empty) arriving
+    through r file / r !cmd / a filter / rx + pu, at address 0, 1, a middle line, $ of buffers with 0..3 lines; marks on the first
+    and the last line"""
+    files = {'g': ['gg1', 'gg2'], 'h': ['hh'], 'n3': ['n3a', 'n3b', 'n3c'], 't2': ['t2a', 't2b'], 'e': []}
+    nonl = ['h', 'n3']
+    out = []
+    for n in range(0, 4):
+        flines = [['ab', 'cd', 'xy'][i] + str(i) for i in range(n)]
+        pre = []
+        if n:
+            pre = [[{'cmd': 'k', 'mark': 'a', 'addr': n_addr(1)}], [{'cmd': 'k', 'mark': 'b', 'addr': n_addr(n)}]]
+        addrs = [[], n_addr(0), n_addr(1), a_last()] + ([n_addr(2)] if n >= 3 else [])
+        for a in addrs:
+            for path in ['h', 'n3', 'e', 't2', '!echo -n q', '!seq 2; echo -n k', '!true', '!echo zz']:
+                out.append({'file': flines, 'files': files, 'nonl': nonl, 'wa': True, 'stream': 'pipe',
+                            'steps': pre + [[{'cmd': 'r', 'addr': a, 'path': path}], [{'cmd': 'p', 'addr': []}]]})
+            for f in ['echo -n x1', 'echo ab; echo -n cd', 'true', 'head -c 3']:
+                out.append({'file': flines, 'files': files, 'nonl': nonl, 'wa': True, 'stream': 'pipe',
+                            'steps': pre + [[{'cmd': 'rs', 'reg': 'a', 'text': ['r1', 'r2']}], [{'cmd': 'rx', 'reg': 'a', 'filter': f}],
+                                            [{'cmd': 'pu', 'addr': a, 'reg': 'a'}], [{'cmd': 'pu', 'addr': [], 'reg': '1'}]]})
+        for lo in range(1, n + 1):
+            for hi in range(lo, n + 1):
+                nb = len(file_bytes(flines[lo - 1:hi]))
+                for f in ['awk 1 ORS=+', 'head -c %d' % (nb - 1), 'head -c %d' % (nb - 2), 'true', 'echo -n x1', 'cat; echo -n t7', 'tac']:
+                    out.append({'file': flines, 'files': files, 'nonl': nonl, 'wa': True, 'stream': 'pipe',
+                                'steps': pre + [[{'cmd': '!', 'addr': a_range(lo, hi), 'filter': f}], [{'cmd': 'p', 'addr': []}]]})
+    return out
+
+
+# -- the big stream: more than a pipe holds (64 KiB) in the addressed range / the register ------------------------------------
+# The text handed to the command must be the addressed lines, all of them, once, in order, whatever their total size (cmd_pipe()
+# feeds the child through a non-blocking pipe in as many write()s as it takes).  Range sizes around 65536 and well beyond;
+# lines of different lengths with their number inside, so that a repeated or shifted stretch shows; the filters look at all of
+# their input (cat tac sort rev tr, checksums and counts) and the reference runs the same command on the same bytes.
+
+def big_lines(rng, target, k0=0):
+    """lines whose total size (with newlines) is exactly target bytes (target >= 200)"""
+    out, tot, k = [], 0, k0
+    while target - tot > 170:
+        w = rng.choice([0, 3, 11, 17, 23, 40, 64, 71])
+        ln = 'k%05d ' % k + ''.join('abcdefghijklmnopqrstuvwxyz'[(k * 7 + j * 3) % 26] for j in range(w))
+        out.append(ln)
+        tot += len(ln) + 1
+        k += 1
+    rest = target - tot
+    a = rest // 2
+    for part in (a, rest - a):
+        ln = 'k%05d ' % k
+        ln = ln + 'z' * (part - 1 - len(ln))
+        out.append(ln)
+        k += 1
+    assert len(file_bytes(out)) == target, (len(file_bytes(out)), target)
+    return out
+
+
+def gen_big_case(rng, quick):
+    target = rng.choice([65536, 65537, 65535, 65600, 66000, 70001, 98304, 131072, 131073, 150000] + ([] if quick else [200000, 262145, 400000]))
+    nh, nt = rng.choice([0, 1, 2, 5]), rng.choice([0, 1, 3])
+    head = ['H%d %s' % (i, rng.choice(WORDS)) for i in range(nh)]
+    tail = ['T%d %s' % (i, rng.choice(WORDS)) for i in range(nt)]
+    mid = big_lines(rng, target)
+    flines = head + mid + tail
+    case = {'file': flines, 'files': {'h': ['hh']}, 'nonl': ['h'], 'wa': True, 'steps': [], 'stream': 'big'}
+    ed = RefEd(flines, case['files'], case['nonl'])
+    ed.lenient = True
+
+    def add(step):
+        case['steps'].append(step)
+        run_ref_step(ed, step, len(case['steps']) - 1)
+    if nh:
+        add([{'cmd': 'k', 'mark': 'a', 'addr': n_addr(rng.range(1, nh))}])
+    if nt:
+        add([{'cmd': 'k', 'mark': 'b', 'addr': n_addr(len(flines) - rng.below(nt))}])
+    add([{'cmd': 'k', 'mark': 'c', 'addr': n_addr(nh + len(mid) // 2)}])       # inside the range
+    for rnd in range(rng.choice([1, 1, 2])):
+        n = len(ed.lines)
+        lo, hi = nh + 1, n - nt
+        if hi < lo:
+            break
+        a = a_range(lo, hi) if (nh or nt or rng.chance(1, 2)) else '%'
+        f = rng.choice(BIGFILTERS)
+        if rng.chance(1, 4):
+            add([{'cmd': 'y', 'addr': a, 'reg': 'a'}])
+            add([{'cmd': 'rx', 'reg': 'a', 'filter': f}])
+            add([{'cmd': 'pu', 'addr': rng.choice([a_last(), n_addr(0), n_addr(lo)]), 'reg': 'a'}])
+        else:
+            add([{'cmd': '!', 'addr': a, 'filter': f}])
+        if rng.chance(1, 3):
+            add([{'cmd': rng.choice(['p', '=']), 'addr': rng.choice([a_last(), n_addr(1), []])}])
+    return case
+
+
 def run_ref_step(ed, step, k, regprobe=False):
     for c in step:
         ed.run(c)
@@ -960,7 +1256,7 @@ def ref_regions(ed, cmds_list):
 def oracle(case, obs):
     """-> None or dict(what, step, expected, observed).  Marks whose line was inside a replaced range
     are unspecified by the property: the reference adopts what the implementation reports for them."""
-    ed = RefEd(case['file'], case['files'])
+    ed = RefEd(case['file'], case['files'], case.get('nonl', ()))
     ed.wa = case.get('wa', True)
     ed.cmdtab = case.get('cmdtab') or {}
     for k, step in enumerate(case['steps']):
@@ -1018,7 +1314,7 @@ def ref_undefined(case):
     probe lines as text, and nothing can be said about the output."""
     if not case.get('cmdtab'):
         return None
-    ed = RefEd(case['file'], case['files'])
+    ed = RefEd(case['file'], case['files'], case.get('nonl', ()))
     ed.wa = case.get('wa', True)
     ed.cmdtab = case['cmdtab']
     ed.lenient = True
@@ -1044,13 +1340,51 @@ def case_input(case):
         d['regprobe'] = True
     if case.get('cmdtab'):
         d['cmdtab'] = case['cmdtab']
+    if case.get('nonl'):
+        d['nonl'] = list(case['nonl'])
+    if case.get('stream'):
+        d['stream'] = case['stream']
     return d
 
 
-def run_impl(vi, case, timeout=20):
-    files = {'f': ''.join(l + '\n' for l in case['file']).encode()}
+def case_files(case):
+    """name -> bytes of every file of the case's directory (f = the edited file); the names in case['nonl'] lack the final newline"""
+    nonl = case.get('nonl', ())
+    files = {'f': file_bytes(case['file'])}
     for nme, ls in case['files'].items():
-        files[nme] = ''.join(l + '\n' for l in ls).encode()
+        files[nme] = file_bytes(ls, nme in nonl)
+    return files
+
+
+def pipe_table(case):
+    """(command, input or None, output) of every external command the REFERENCE runs on this case, in order: the extracted model's
+    `filter` parameter is this table (plus the four built-in filters)"""
+    ed = RefEd(case['file'], case['files'], case.get('nonl', ()))
+    ed.wa = case.get('wa', True)
+    ed.cmdtab = case.get('cmdtab') or {}
+    ed.lenient = True
+    ed.pipelog = []
+    try:
+        for k, step in enumerate(case['steps']):
+            run_ref_step(ed, step, k, case.get('regprobe', False))
+    except KeyError:
+        pass
+    seen, out = set(), []
+    for t in ed.pipelog:
+        if (t[0], t[1]) not in seen:
+            seen.add((t[0], t[1]))
+            out.append(t)
+    return out
+
+
+def uses_pipes(case):
+    return case.get('stream') in ('pipe', 'big') or any(x['cmd'] == 'rx' or (x['cmd'] == '!' and x['filter'] not in BUILTIN_FILTERS) or
+                                                        (x['cmd'] == 'r' and x['path'].startswith('!'))
+                                                        for st in case['steps'] for x in st)
+
+
+def run_impl(vi, case, timeout=20):
+    files = case_files(case)
     r = vlib.run_ex(vi, build_script(case), files=files, args=['f'], readback=['f'], timeout=timeout)
     if r.timed_out:
         r = vlib.run_ex(vi, build_script(case), files=files, args=['f'], readback=['f'], timeout=3 * timeout)
@@ -1060,10 +1394,42 @@ def run_impl(vi, case, timeout=20):
 
 
 def model_request(case):
-    extra = ' '.join('%s=%s' % (nme.encode().hex(), vlib.hx(''.join(l + '\n' for l in ls).encode()))
-                     for nme, ls in sorted(case['files'].items()))
-    return 'run %d %s %s %s' % (1 if case.get('wa', True) else 0, vlib.hx(''.join(l + '\n' for l in case['file']).encode()),
+    nonl = case.get('nonl', ())
+    extra = ' '.join('%s=%s' % (nme.encode().hex(), vlib.hx(file_bytes(ls, nme in nonl))) for nme, ls in sorted(case['files'].items()))
+    if uses_pipes(case):
+        # the outputs of the external commands, as a table from (command, input) -- the model's `filter` looks its own input up
+        hx2 = lambda b: '-' if b is None else ('.' if b == b'' else b.hex())
+        extra += ''.join(' !%s:%s:%s' % (cmd.encode('latin-1').hex(), hx2(inp), hx2(out)) for cmd, inp, out in pipe_table(case))
+    return 'run %d %s %s %s' % (1 if case.get('wa', True) else 0, vlib.hx(file_bytes(case['file'])),
                                 model_script(case).hex(), extra)
+
+
+TERM_RE = re.compile(rb'\x1b\[[0-9;?]*[A-Za-z]|\r')
+
+
+def strip_term(out):
+    """`r !cmd` runs the command on the terminal: term_done() / term_init() write control sequences straight to descriptor 1, between
+    whatever the buffered ex output has flushed so far.  They are no printed output of a command of the property's list."""
+    return TERM_RE.sub(b'', out) if (b'\x1b' in out or b'\r' in out) else out
+
+
+def trim_pair(a, b):
+    """two long line lists -> the stretch around their first difference (with its index), so that replay files stay small"""
+    if not isinstance(a, list) or not isinstance(b, list) or max(len(a), len(b)) < 40:
+        return a, b
+    i = 0
+    while i < min(len(a), len(b)) and a[i] == b[i]:
+        i += 1
+    lo = max(0, i - 3)
+    note = '... %d lines, first difference at line %d, lines %d.. shown:'
+    return [note % (len(a), i + 1, lo + 1)] + a[lo:i + 6], [note % (len(b), i + 1, lo + 1)] + b[lo:i + 6]
+
+
+def trim_big(bad):
+    if 'expected' in bad and 'observed' in bad:
+        bad['expected'], bad['observed'] = trim_pair(bad['expected'], bad['observed'])
+    if isinstance(bad.get('before'), list) and len(bad['before']) > 40:
+        bad['before'] = ['... %d lines' % len(bad['before'])] + bad['before'][:3]
 
 
 def check_case(vi, case, mans):
@@ -1071,13 +1437,15 @@ def check_case(vi, case, mans):
     r = run_impl(vi, case)
     if r.crashed():
         return 'crash', {'what': 'the editor crashed or hung (rc=%s, timed_out=%s)' % (r.rc, r.timed_out), 'stderr': r.err[-600:].decode('latin-1')}
-    obs = parse_impl(r.out)
+    obs = parse_impl(strip_term(r.out) if uses_pipes(case) else r.out)
     if obs is None:
         u = ref_undefined(case)
         if u is not None:
             return 'undefined', u       # (only shrunk command-string cases get here: a register of plain text lines run as commands)
         return 'violation', {'what': 'the probe markers in the output are damaged', 'observed': r.out[-400:].decode('latin-1')}
     bad = oracle(case, obs)
+    if bad is not None and case.get('stream') == 'big':
+        trim_big(bad)
     if bad is None:
         want = ''.join(l + '\n' for l in obs[-1]['buf']).encode() if obs else None
         if obs and r.files.get('f') != want:
@@ -1095,9 +1463,13 @@ def check_case(vi, case, mans):
             k = 0
             while mobs and obs and k < min(len(mobs), len(obs)) and mobs[k] == obs[k]:
                 k += 1
-            return 'disagree', {'what': 'model and implementation differ at step %d' % k,
-                                'implementation': obs[k] if obs and k < len(obs) else None,
-                                'model': mobs[k] if mobs and k < len(mobs) else None}
+            det = {'what': 'model and implementation differ at step %d' % k,
+                   'implementation': obs[k] if obs and k < len(obs) else None,
+                   'model': mobs[k] if mobs and k < len(mobs) else None}
+            if case.get('stream') == 'big' and det['implementation'] and det['model']:
+                for fld in ('out', 'buf'):
+                    det['implementation'][fld], det['model'][fld] = trim_pair(det['implementation'][fld], det['model'][fld])
+            return 'disagree', det
         if d.get('W') not in (None, 'x') and vlib.unhx(d['W']) != r.files.get('f'):
             return 'disagree', {'what': 'written file differs between model and implementation'}
     return res
@@ -1199,6 +1571,8 @@ def cmd_pieces(c):
         arg = c['path']
     elif k == '!':
         arg = c['filter']
+    elif k == 'rx':
+        arg = c['reg'] + ' ' + c['filter']
     elif k == 'ec':
         arg = c['text']
     return (loc, cmd, arg)
@@ -1209,7 +1583,7 @@ def step_pieces(step):
     if any(p is None for p in ps):
         return None
     # `!` (and g, v) take the rest of the line: the renderer only puts them last
-    if any(c['cmd'] == '!' for c in step[:-1]):
+    if any(c['cmd'] in ('!', 'rx') for c in step[:-1]):
         return None
     return '|'.join(r_cmd(dict(c, text=[], cmds=None, inblocks=None))[0] for c in step), ps
 
@@ -1355,6 +1729,12 @@ def run(ctx):
         nstr = 600 if ctx.quick else 12000
         for i in range(nstr):
             cases.append(gen_str_case(rng.fork('str%d' % i), ctx.quick))
+        # (the reference runs the external commands while the cases are generated: the forks are independent, so in parallel)
+        npipe = 400 if ctx.quick else 10000
+        cases += vlib.pmap(lambda r: gen_pipe_case(r, ctx.quick), [rng.fork('pipe%d' % i) for i in range(npipe)])
+        cases += pipe_sweep()
+        nbig = 14 if ctx.quick else 120
+        cases += vlib.pmap(lambda r: gen_big_case(r, ctx.quick), [rng.fork('big%d' % i) for i in range(nbig)])
         ex = exhaustive_cases(2 if ctx.quick else 4)
         if ctx.quick:
             r2 = rng.fork('exh')
@@ -1379,6 +1759,18 @@ def run(ctx):
         res.count('buffer lines %d' % len(case['file']))
         if case.get('regprobe'):
             res.count('register-history case (registers 1..9 revealed after every command)')
+        if case.get('stream') == 'pipe':
+            res.count('pipe case (r file / r !cmd / filter / rx with empty, unterminated and terminated texts)')
+            for st in case['steps']:
+                for x in st:
+                    if x['cmd'] == 'r':
+                        res.count('pipe: r !cmd' if x['path'].startswith('!') else 'pipe: r of a file without final newline' if x['path'] in case.get('nonl', ()) else 'pipe: r file')
+                    elif x['cmd'] == 'rx':
+                        res.count('pipe: rx')
+                    elif x['cmd'] == '!' and x['filter'] not in BUILTIN_FILTERS:
+                        res.count('pipe: filter run by the reference')
+        if case.get('stream') == 'big':
+            res.count('big case (more than 64 KiB through !cmd / rx)')
         if case.get('stream') == 'cmdstring':
             res.count('command-string case (register with a multi-line command list run by @)')
             if any(ln[-1]['cmd'] == 'rs' for ln in case['cmdtab'].values()):
@@ -1390,7 +1782,7 @@ def run(ctx):
                 if x['cmd'] in ('pu', '@') and (x.get('reg') or '') in NUMREGS and x.get('reg'):
                     res.count('%s from a numbered register' % x['cmd'])
         if any(x['cmd'] in ('a', 'i', 'c', 'd', 'pu', 'r', '!') and x.get('addr') for st in case['steps'] for x in st):
-            res.nontriv(script)
+            res.nontriv(script if len(script) < 4000 else __import__('hashlib').sha1(script).hexdigest())
         if kind == 'ok':
             continue
         if kind == 'undefined':
